@@ -357,3 +357,30 @@ func MarkCall(id int, in bool, obj int) {
 		CurObj[id] = -1
 	}
 }
+
+// Heartbeat writes the step counter to path every two seconds until the
+// process exits, so that a parent can tell a slow child from a stuck one. It
+// runs in a goroutine of its own that never enters the turn protocol.
+//
+//go:norace
+func Heartbeat(path string, write func(string, []byte) error, sleep func()) {
+	for {
+		_ = write(path, []byte(itoa(Steps)))
+		sleep()
+	}
+}
+
+//go:norace
+func itoa(v uint64) string {
+	if v == 0 {
+		return "0"
+	}
+	var b [20]byte
+	i := len(b)
+	for v > 0 {
+		i--
+		b[i] = byte('0' + v%10)
+		v /= 10
+	}
+	return string(b[i:])
+}
